@@ -18,11 +18,11 @@ import (
 )
 
 const (
-	sysSeccomp          = 317 // x86_64
-	prSetNoNewPrivs     = 38
-	prGetNoNewPrivs     = 39
-	seccompSetModeFilt  = 1
-	kverifyBudget       = 26000 // attached instructions per child (kernel limit: 32768 incl. 4 per filter)
+	sysSeccomp         = 317 // x86_64
+	prSetNoNewPrivs    = 38
+	prGetNoNewPrivs    = 39
+	seccompSetModeFilt = 1
+	kverifyBudget      = 26000 // attached instructions per child (kernel limit: 32768 incl. 4 per filter)
 )
 
 func init() {
